@@ -1110,35 +1110,40 @@ gj0ProgEnvArg(Foam foam)
 local JavaCodeList
 gj0ProgDeclarations(Foam ddecl, Foam body)
 {
-	Table tbl = tblNew((TblHashFun) jcoHash, (TblEqFun) jcoEqual);
-	TableIterator it;
-	JavaCodeList decls;
+	/* Group the locals by type, keeping the types in order of first use
+	 * (a hash table's own order depends on addresses). */
+	JavaCodeList decls, types, tl;
+	PointerList groups, gl;
 	IntSet initted;
 	int i=0;
 	initted = intSetNew(foamDDeclArgc(ddecl));
-	
+	types  = listNil(JavaCode);
+	groups = listNil(Pointer);
 
 	gj0ProgInitVars(initted, body);
 	gjDEBUG(dbOut, "InitVars: %s\n", intSetToString(initted));
 
 	foamIter(ddecl, pdecl, {
 			JavaCode type = gj0Type(*pdecl);
-			JavaCodeList l = (JavaCodeList) tblElt(tbl, type, 
-							       listNil(JavaCode));
-			l = listCons(JavaCode)(gj0ProgDecl(ddecl, i, 
-							   intSetMember(initted, i)),
-					       l);
-			tblSetElt(tbl, type, l);
+			JavaCode var  = gj0ProgDecl(ddecl, i, intSetMember(initted, i));
+			for (tl = types, gl = groups; tl != listNil(JavaCode); tl = cdr(tl), gl = cdr(gl))
+				if (jcoEqual(car(tl), type)) break;
+			if (tl == listNil(JavaCode)) {
+				types  = listNConcat(JavaCode)(types, listSingleton(JavaCode)(type));
+				groups = listNConcat(Pointer)(groups, listSingleton(Pointer)((Pointer) listSingleton(JavaCode)(var)));
+			}
+			else
+				setcar(gl, (Pointer) listNConcat(JavaCode)((JavaCodeList) car(gl), listSingleton(JavaCode)(var)));
 			i++;
 		});
-	
+
 	decls = listNil(JavaCode);
-	for (tblITER(it, tbl); tblMORE(it); tblSTEP(it)) {
-		JavaCode type = tblKEY(it);
-		JavaCodeList vars = listNReverse(JavaCode)(tblELT(it));
-		JavaCode decl = jcLocalDecl(0, type, jcCommaSeq(vars));
+	for (tl = types, gl = groups; tl != listNil(JavaCode); tl = cdr(tl), gl = cdr(gl)) {
+		JavaCode decl = jcLocalDecl(0, car(tl), jcCommaSeq((JavaCodeList) car(gl)));
 		decls = listCons(JavaCode)(jcStatement(decl), decls);
 	}
+	listFree(JavaCode)(types);
+	listFree(Pointer)(groups);
 
 	return decls;
 }
